@@ -71,10 +71,14 @@ pub fn def() -> PropertyDef {
     PropertyDef {
         id: "C02",
         level: "exploration",
-        rule: "random programs of 0..12 (thorough 0..30) operations {negate, add, sub, add_many, multiply, square, add/sub/multiply_plain (coefficient or NTT plain; monomial / constant / short / full / upper-half plaintexts), transform_to/from_ntt, relinearize, mod_switch_to_next} over a pool of 2..4 fresh BFV/BGV ciphertexts (pk or sk) under generated parameter sets (N=2..32 (thorough ..256), 3..5 primes of 45..60 bits, t of 2..50 bits of every kind). Each step picks operands the shadow says are well-typed (construction, not rejection); every result's metadata is checked and, when its worst-case noise bound (2^6 margin) is below Q_level/2, its decryption must equal the shadow polynomial. non-trivial: some step asserted, the program multiplies, and it has unequal operand sizes or a size >= 4 result or a lower level or differing BGV correction factors or a non-default representation operand.",
+        rule: "random programs of 0..12 (thorough 0..30) operations {negate, add, sub, add_many, multiply, square, add/sub/multiply_plain (coefficient or NTT plain; monomial / constant / short / full / upper-half plaintexts), transform_to/from_ntt, relinearize, mod_switch_to_next} over a pool of 2..4 fresh BFV/BGV ciphertexts (pk or sk) under generated parameter sets (N=2..32 (thorough ..256), 3..5 primes of 45..60 bits, t of 2..50 bits of every kind). Each step picks operands the shadow says are well-typed (construction, not rejection); every result's metadata is checked and, when its worst-case noise bound (2^6 margin) is below Q_level/2, its decryption must equal the shadow polynomial. non-trivial: some step asserted, the program multiplies, and it has unequal operand sizes or a size >= 4 result or a lower level or differing BGV correction factors or a non-default representation operand. Second sub-check: the same programs (0..6 operations, multiplication-heavy) over plain moduli of 57..60 bits and 60-bit primes at N = 256..1024 (thorough 2048), where the integers formed inside BFV multiplication are largest relative to the auxiliary base.",
         assumptions: vec!["noise model DESIGN.md §4; BGV scaling factors of unequal-factor additions are derived from the result's recorded factor", "shadow arithmetic: naive negacyclic convolution modulo t"],
         subs: vec![
             Sub::prop("programs", 200_000, 1_500_000, 0.25, |t| prog_case(prog_param_cfg(t.pick(5, 8), vec![Scheme::BFV, Scheme::BGV]), t.pick(12, 30), 4), oracle),
+            // plain moduli of 57..60 bits over 60-bit primes at N = 256..1024 (thorough 2048): the region where the products formed
+            // inside BFV multiplication come closest to the capacity of the auxiliary base
+            Sub::prop("programs_wide_plain", 12_000, 80_000, 0.1, |t| prog_case(ParamCfg { schemes: vec![Scheme::BFV, Scheme::BFV, Scheme::BGV], logn_lo: 8, logn_hi: t.pick(10, 11), logn_small: 9, k_lo: 4, k_hi: 5, bits_lo: 60, bits_hi: 60,
+                t_kind: TKind::Any, t_bits_lo: 57, t_bits_hi: 60, need_keyswitching: true, allow_special_flag: false, always_expand: true }, 6, 8), oracle),
         ],
     }
 }
